@@ -187,6 +187,12 @@ fn generate_same_level(
 #[derive(Debug, Clone)]
 struct Container(SvgElement);
 
+/// Is this text nothing but XML white space? (U+00A0 and the like are characters, which
+/// Unicode - and `str::trim()` - counts as white space, but XML and SVG do not.)
+fn is_xml_space(text: &str) -> bool {
+    text.chars().all(|c| matches!(c, ' ' | '\t' | '\n' | '\r'))
+}
+
 impl EventGen for Container {
     fn generate_events(
         &self,
@@ -219,7 +225,7 @@ impl EventGen for Container {
             let inner_text = pieces.map(|mut pieces| {
                 let has_cdata = pieces.iter().any(|(is_cdata, _)| *is_cdata);
                 let is_layout = |p: Option<&(bool, String)>| {
-                    p.is_some_and(|(is_cdata, t)| !is_cdata && t.trim().is_empty())
+                    p.is_some_and(|(is_cdata, t)| !is_cdata && is_xml_space(t))
                 };
                 if has_cdata {
                     if is_layout(pieces.last()) {
@@ -245,7 +251,7 @@ impl EventGen for Container {
                 let mut el = self.0.clone();
                 // no content at all, or only white space (e.g. a line break between the
                 // tags), is layout rather than text
-                if !text.trim().is_empty() {
+                if !is_xml_space(text) {
                     el.set_attr("text", text);
                 }
                 if let Some((start, _end)) = self.0.event_range {
@@ -268,7 +274,7 @@ impl EventGen for Container {
                     let piece = match depth {
                         0 => e
                             .cdata_string()
-                            .or(e.text_string().filter(|t| !t.trim().is_empty())),
+                            .or(e.text_string().filter(|t| !is_xml_space(t))),
                         _ => None,
                     };
                     match piece {
@@ -279,7 +285,7 @@ impl EventGen for Container {
                         }
                     }
                 }
-                if !text.trim().is_empty() {
+                if !is_xml_space(&text) {
                     el.set_attr("text", &text);
                 }
                 let (shape_events, bbox) = generate_same_level(&el, context)?;
@@ -703,7 +709,7 @@ impl EventGen for Tag {
                 (events, bbox) = (ev, bb);
                 // (see `Tag::Leaf` below)
                 if let Some(tail) = tail {
-                    if !(events.is_empty() && tail.trim().is_empty() && tail.contains('\n')) {
+                    if !(events.is_empty() && is_xml_space(tail) && tail.contains('\n')) {
                         events.push(OutputEvent::Text(tail.to_owned()));
                     }
                 }
@@ -736,7 +742,7 @@ impl EventGen for Tag {
                 // The layout white space after an element which leaves nothing in the
                 // output goes with it; text which follows it does not.
                 if let Some(tail) = tail {
-                    if !(events.is_empty() && tail.trim().is_empty() && tail.contains('\n')) {
+                    if !(events.is_empty() && is_xml_space(tail) && tail.contains('\n')) {
                         events.push(OutputEvent::Text(tail.to_owned()));
                     }
                 }
